@@ -4,7 +4,7 @@
 (* HFFibers, with the Einsum oracle of EinsumSem and the observers of the execution properties.   *)
 (* One behaviour = one (program, extents configuration, input tensors, library variant);          *)
 (* one step = one emitted statement or loop-control point.                                         *)
-EXTENDS HFFibers, EinsumSem, Json, IOUtils
+EXTENDS HFFibers, EinsumSem, MetricsProtocol, RollUp, Json, IOUtils
 
 Batch == JsonDeserialize(IOEnv.HF_BATCH)
 Progs == Batch.progs
@@ -44,7 +44,7 @@ Init == /\ pid \in 1..Len(Progs)
         /\ sup = [i \in 1..Len(Progs[pid].sups[cfg][supi]) |-> SeqSet(Progs[pid].sups[cfg][supi][i])]
         /\ variant \in {[haloOnly |-> h, dropBelow |-> b] : h \in (IF Progs[pid].usesHalo THEN {TRUE, FALSE} ELSE {TRUE}), b \in (IF Progs[pid].usesNonUniform THEN {TRUE, FALSE} ELSE {TRUE})}
         /\ pc = 1 /\ stack = <<>> /\ err = "" /\ upd = 0 /\ acts = 0 /\ stamps = {} /\ dup = FALSE /\ nstd = 0
-        /\ mp = [phase |-> "idle", prefix |-> "", reg |-> {}, files |-> {}, isect |-> <<>>, bad |-> "", sections |-> 0]
+        /\ mp = MpInit
         /\ store = [i \in 1..Len(Progs[pid].inputs) |-> InputStore(i)]
         /\ objs = [i \in 1..Len(Progs[pid].inputs) |-> [ids |-> Progs[pid].inputs[i].ids, sid |-> i, pre |-> <<>>]]
         /\ env = [x \in {Progs[pid].inputs[i].var : i \in 1..Len(Progs[pid].inputs)} \cup DOMAIN Progs[pid].configs[cfg] |->
@@ -108,65 +108,9 @@ KeyPath(e, en, st) == IF e.e = "name" THEN <<>> ELSE KeyPath(e.obj, en, st) \o <
 SetIn(c, path, v) == IF Len(path) = 1 THEN [c EXCEPT !.f = Bind(c.f, path[1], v)]
                      ELSE [c EXCEPT !.f = Bind(c.f, path[1], SetIn(c.f[path[1]], Tail(path), v))]
 
-(* C12: metrics-collection protocol monitor, advanced by the statement at pc *)
-RECURSIVE CallsIn(_)
-CallsIn(e) ==
-  CASE e.e = "call" -> {e} \cup CallsIn(e.fn) \cup UNION ({CallsIn(e.args[i]) : i \in 1..Len(e.args)} \cup {CallsIn(e.kw[i].v) : i \in 1..Len(e.kw)})
-    [] e.e \in {"tuple", "list"} -> UNION {CallsIn(e.elts[i]) : i \in 1..Len(e.elts)}
-    [] e.e = "dict" -> UNION ({CallsIn(e.keys[i]) : i \in 1..Len(e.keys)} \cup {CallsIn(e.vals[i]) : i \in 1..Len(e.vals)})
-    [] e.e \in {"bin", "cmp"} -> CallsIn(e.l) \cup CallsIn(e.r)
-    [] e.e = "attr" -> CallsIn(e.obj)
-    [] e.e = "index" -> CallsIn(e.obj) \cup CallsIn(e.key)
-    [] e.e = "lambda" -> CallsIn(e.body)
-    [] OTHER -> {}
-ExprsOf(i) == CASE i.op \in {"assign", "expr"} -> {i.e} [] i.op = "aug" -> {i.dst, i.e} [] i.op = "setitem" -> {i.obj, i.key, i.e}
-                [] i.op = "for" -> {i.it} [] i.op = "if" -> {i.c} [] OTHER -> {}
-CallsAt == UNION {CallsIn(x) : x \in ExprsOf(I)}
-MetCall(c, name) == c.fn.e = "attr" /\ c.fn.obj.e = "name" /\ c.fn.obj.id = "Metrics" /\ c.fn.name = name
-Meth(c, name) == c.fn.e = "attr" /\ c.fn.name = name
 InLoop == stack # <<>>
-FileOf(r, t) == mp.prefix \o "-" \o r \o "-" \o t \o ".csv"
-Complain(m, msg) == IF m.bad = "" THEN [m EXCEPT !.bad = msg] ELSE m
-MpNext ==
-  LET begins == {c \in CallsAt : MetCall(c, "beginCollect")}
-      ends == {c \in CallsAt : MetCall(c, "endCollect")}
-      regs == {c \in CallsAt : MetCall(c, "trace")}
-      cons == {c \in CallsAt : MetCall(c, "consumeTrace")}
-      filt == {c \in CallsAt : Meth(c, "filterTrace")}
-      iters == {c \in CallsAt : Meth(c, "numIters")}
-      feeds == {c \in CallsAt : Meth(c, "addTraces")}
-      counts == {c \in CallsAt : Meth(c, "getNumIntersects")}
-      mkis == I.op = "assign" /\ I.e.e = "call" /\ I.e.fn.e = "name" /\ I.e.fn.id \in {"LeaderFollowerIntersector", "SkipAheadIntersector", "TwoFingerIntersector"}
-      m1 == IF begins # {} THEN
-               (LET c == CHOOSE x \in begins : TRUE
-                    m0 == [mp EXCEPT !.phase = "collecting", !.prefix = c.args[1].s, !.reg = {}, !.files = {}, !.isect = <<>>, !.sections = @ + 1] IN
-                IF mp.phase = "collecting" THEN Complain(m0, "beginCollect while collecting") ELSE IF InLoop THEN Complain(m0, "beginCollect inside a loop") ELSE m0)
-            ELSE mp
-      m2 == IF ends # {} THEN (IF m1.phase # "collecting" THEN Complain(m1, "endCollect without beginCollect") ELSE IF InLoop THEN Complain(m1, "endCollect inside a loop") ELSE [m1 EXCEPT !.phase = "closed"]) ELSE m1
-      m3 == IF regs # {} THEN
-               (LET new == {<<c.args[1].s, Kw(c, "type_").s, Kw(c, "consumable").b>> : c \in regs} IN
-                LET m == [m2 EXCEPT !.reg = @ \cup new, !.files = @ \cup {m2.prefix \o "-" \o t[1] \o "-" \o t[2] \o ".csv" : t \in new}] IN
-                IF m2.phase # "collecting" THEN Complain(m, "trace registration outside collection") ELSE m)
-            ELSE m2
-      m4 == IF \E c \in cons : <<c.args[1].s, c.args[2].s, TRUE>> \notin m3.reg THEN Complain(m3, "consumeTrace without consumable registration") ELSE m3
-      m5 == IF mkis THEN (LET m == [m4 EXCEPT !.isect = Bind(@, I.dst, "created")] IN
-                          IF InLoop \/ m4.phase # "collecting" THEN Complain(m, "intersector created inside loops or outside collection") ELSE m) ELSE m4
-      m6 == IF feeds # {} THEN
-               (LET c == CHOOSE x \in feeds : TRUE  nm == c.fn.obj.id IN
-                IF nm \notin DOMAIN m5.isect THEN Complain(m5, "addTraces on an intersector that was not created")
-                ELSE IF ~InLoop THEN Complain(m5, "addTraces outside the loops") ELSE [m5 EXCEPT !.isect = Bind(@, nm, "fed")])
-            ELSE m5
-      m7 == IF \E c \in counts : ~(c.fn.obj.id \in DOMAIN m6.isect /\ m6.isect[c.fn.obj.id] \in {"created", "fed"}) THEN Complain(m6, "getNumIntersects on an intersector never created") ELSE m6
-      m8 == IF filt # {} THEN
-               (LET c == CHOOSE x \in filt : TRUE IN
-                LET m == [m7 EXCEPT !.files = @ \cup {c.args[3].s}] IN
-                IF c.args[1].s \notin m7.files \/ c.args[2].s \notin m7.files THEN Complain(m, "filterTrace input was never produced") ELSE m)
-            ELSE m7
-      m9 == IF \E c \in iters : c.args[1].s \notin m8.files THEN Complain(m8, "numIters on a trace that was never produced") ELSE m8
-      m10 == IF I.op = "assign" /\ I.dst = "traces" /\ I.e.e = "dict" /\ \E j \in 1..Len(I.e.vals) : I.e.vals[j].s \notin m9.files
-             THEN Complain(m9, "traces dictionary names a file that was never produced") ELSE m9
-  IN m10
-EnvS == Bind(env, "$std", NumI(nstd))
+MpNext == MpStep(mp, I, InLoop, FALSE)
+EnvS == Bind(env, "$std", NumI(nstd + 17 * supi))      \* stand-in results vary with statement and input
 Step ==
   /\ err = "" /\ I.op # "done"
   /\ CASE Unbound # {} -> Fail("unbound name " \o (CHOOSE x \in Unbound : TRUE))
@@ -308,19 +252,9 @@ WithinExtentAtDone == \A i \in 1..Len(Prog.outs) : LET o == Prog.outs[i] IN
 Concat(ids) == FoldLeft(LAMBDA a, b : a \o b, "", ids)
 NamesTruthfulAtDone == \A i \in 1..Len(Prog.tvars) : LET tv == Prog.tvars[i] IN
     (tv.var \in DOMAIN env /\ env[tv.var].k = "ten") => Concat(objs[env[tv.var].o].ids) = tv.spelled
-(* C14: roll-up of the metrics dictionary the dump section built *)
-RECURSIVE NSumSet(_, _)
-NSumSet(S, f) == IF S = {} THEN NumI(0) ELSE LET x == CHOOSE y \in S : TRUE IN NAdd(f[x], NSumSet(S \ {x}, f))
+(* C14: roll-up of the metrics dictionary the dump section built (RollUp.tla) *)
 MetD == env["metrics"]
-CompsWithTime(e) == {c \in DOMAIN MetD.f[e].f : MetD.f[e].f[c].k = "dict" /\ Str("time") \in DOMAIN MetD.f[e].f[c].f}
-BlockTime(b) == LET es == SeqSet(b.v)
-                    comps == UNION {CompsWithTime(e) : e \in es}
-                    tot == [c \in comps |-> NSumSet({e \in es : c \in CompsWithTime(e)}, [e \in es |-> IF c \in CompsWithTime(e) THEN MetD.f[e].f[c].f[Str("time")] ELSE NumI(0)])]
-                    best == CHOOSE c \in comps : \A c2 \in comps : NLe(tot[c2], tot[c]) IN
-                IF comps = {} THEN NumI(0) ELSE tot[best]
-RollUpOK == LET bl == MetD.f[Str("blocks")].v IN
-            /\ MetD.f[Str("time")] = NSumSet(1..Len(bl), [i \in 1..Len(bl) |-> BlockTime(bl[i])])
-            /\ \A i, j \in 1..Len(bl) : i # j => SeqSet(bl[i].v) \cap SeqSet(bl[j].v) = {}
+RollUpOK == RollUpHolds(MetD) /\ ComponentTimesHold(MetD, Prog.arch)
 (* ---------------------------------------------------------------------------------------- *)
 (* Properties.  Each is a state predicate; the batch configuration checks the always-true        *)
 (* invariant Verdict, which prints one line per failing terminal state naming every failing      *)
